@@ -14,7 +14,7 @@ CHECKS = {
          "reference model harness/src/fsmodel.rs (rules + admitted sets: DESIGN.md appendix A); hook H2 dump; paths through intermediate links excluded", "4 C01"),
  "C02": ("differential testing: bounded-exhaustive (tree x call) pairs and proptest histories executed on Memfs and on Stdfs (tmpfs sandbox), observed by an independent std::fs walker",
          "Every in-domain tree of a two-level namespace is mirrored under the same absolute prefix in Memfs and - from the Memfs dump, with std::fs only - on tmpfs (observers must agree first); every single-path call form on 10 paths and every two-path form on all ordered pairs, plus random histories: same Ok/Err, same values, same tree (names, kinds, bytes, link targets, permission bits; default owners renamed).",
-         "kernel/tmpfs semantics; euid 0 only and the inherited umask 022; error kinds are not compared across backends; two signed known findings (Entry::mode of links)", "4 C02"),
+         "kernel/tmpfs semantics; euid 0 and, for a sample, 65534; the inherited umask 022; error kinds are not compared across backends; two signed known findings (Entry::mode of links)", "4 C02"),
  "C03": ("stateful property-based testing: unrestricted generated histories with an 8-clause structural invariant over the raw Memfs dump after every step",
          "Histories with wild arguments (through links, root, empty, long '..' chains, huge names, nested src/dst, all builder options, failing calls) and after every step the raw indexes must form a well-formed tree and agree with the public API view.",
          "hook H2 dump is faithful; invariant list in harness/src/fsapply.rs::integrity", "4 C03"),
@@ -35,7 +35,7 @@ CHECKS = {
          "reference traversal in harness/src/props/c08.rs; equal-name sibling ties, link->link under follow and min>max windows are excluded (counted)", "4 C08"),
  "C09": ("bounded-exhaustive enumeration of trees x (src,dst) pairs x option sets with postcondition predicates over before/after dumps",
          "All 3025 trees of a two-level namespace (files, dirs, links incl. dangling, varied modes/owners) x all 144 ordered pairs of 12 argument paths x {copy, chmod_all, chmod_dirs, chmod_files, follow, move_p} on Memfs (quick: a seeded third of the trees); postconditions on the dumps before/after: source untouched, every source entry copied faithfully, modes of new entries, existing entries kept, no collateral change, move relocates exactly, failed move changes nothing, C03 invariants.",
-         "hook H2 dump; placement under follow with links in the source is only frame-checked; the Stdfs side of the same calls is C02's job", "4 C09"),
+         "hook H2 dump; placement under follow with links in the source is only frame-checked; follow with links in the source is not run on Stdfs", "4 C09"),
  "C10": ("bounded-exhaustive enumeration of (link position, target position, target kind, spelling) with round-trip and frame oracles on both backends",
          "Every link/target position pair up to depth 3/4, five target kinds, four spellings on Memfs and a seeded part on a tmpfs Stdfs sandbox (std::fs::read_link as observer): readlink/readlink_abs round trip, link exclusion, recorded kind, readlink on non-links, follow() swap semantics, symlink over an existing link, chmod/chown/remove acting on the link only.",
          "ref_clean/ref_relative; kernel symlink semantics on tmpfs; uid 0 for chown", "4 C10"),
@@ -71,10 +71,34 @@ CHECKS = {
          "reference predicates in harness/src/props/c20.rs; no_dir!/no_file! on another kind and copyfile! into a directory are not asserted", "4 C20"),
 }
 
+# what later strengthening rounds added (the evidence file's `rule` carries the full description)
+ADDED = {
+ "C01": "Later additions: names with a string-prefix pair, special-bit modes, a read-handle session compared with std::io::Cursor inside the read call form.",
+ "C02": "Later additions: every two-path call followed by reads of both paths, symbolic chmod with follow, read-handle sessions, a privilege-dropped worker (euid 65534) for a sample of the sweep.",
+ "C03": "Later additions: persistent write/append handles in the histories; every (1,1) two-thread program over the C04 alphabet from two seed states, all interleavings, judged at quiescence.",
+ "C04": "Later additions: half of the programs run through the Vfs wrapper; every rich call form as a one-thread program (nested-guard detection); listed call forms racing 8 mutators; relative forms racing cwd changes; attribute queries racing replacing moves/chown/chmod; handle sessions racing replacers of their file.",
+ "C05": "Later additions: cwd entered through a symlink; chmod_b/chown_b executed after a later set_cwd; Stdfs::abs from a child process whose cwd was deleted.",
+ "C06": "Later additions: persistent handles across steps; every program of length 5/6 over several append writers of one Stdfs file.",
+ "C07": "Later additions: write preludes (file moved / copied / moved then copied) with a bystander check; several append writers on Stdfs.",
+ "C08": "Later additions: a fourth hand-made tree (link chains, dangling link between directories; reference typed per backend); chains ending in an empty directory beyond the descriptor cap.",
+ "C09": "Later additions: two chmod options on one builder; a seeded sample of the cases also through Stdfs on a tmpfs copy of the tree (same predicates).",
+ "C10": "Later additions: positions over a prefix-pair alphabet; recursive chmod/chown of the link's directory; non-recursive chown_b; clone of a followed entry.",
+ "C11": "Later additions: corrupted first clause followed by a well-formed tail; octal values 0..=0o7777 on both backends; two hand-made trees x every path x every builder option combination.",
+ "C12": "Later additions: every program of length 4/5 over handles that outlive their file; every call form on a 60-level chain ending in an empty directory; characters whose lower-case form changes byte length; watchdog rule for blocked (dead-locked) calls.",
+ "C13": "Later additions: wrapper vs unwrapped entry after every follow chain; the matrix on Stdfs vs Vfs::Stdfs twins incl. every handle program of length 4/5; builders executed after a cwd change; files with asymmetric permission classes.",
+ "C14": "Later additions: every non-UTF-8 byte string over a 5-byte alphabet up to length 6/7.",
+ "C16": "Later additions: names with '~' and '$', case-variant names, non-UTF-8 names, paths that exist on disk behind a symlink.",
+ "C17": "Later additions: sequences of four environments inside one process; a variable whose value is not valid UTF-8.",
+ "C18": "Later additions: list entries '/', trailing separators, repeated entries; multi-component config names; ids above 2^31; bystander variables (TMPDIR ...).",
+ "C20": "Later additions: hand-made create/remove/recreate and dangling-link states also on Stdfs; line-terminator near misses; where a new link points; feasibility rules for creating and removing macros.",
+}
+
 def main():
     checks = []
     for pid in sorted(CHECKS):
         tech, text, base, ref = CHECKS[pid]
+        if pid in ADDED:
+            text = text + " " + ADDED[pid]
         checks.append({
             "property_id": pid,
             "quick_cmd": "./check %s quick" % pid,
